@@ -101,7 +101,7 @@ def compositions(n, max_parts):
     return out
 
 
-def frame(body, framing, chunks=None, ext=False, trailers=False, ce=None, extra_headers=()):
+def frame(body, framing, chunks=None, ext=False, trailers=False, ce=None, extra_headers=(), te_value="chunked"):
     """-> (head bytes, wire body bytes, marks) ; marks = offsets in head+wire where a structural
     boundary falls (end of head, chunk ends)"""
     lines = [b"HTTP/1.1 200 OK"]
@@ -117,7 +117,7 @@ def frame(body, framing, chunks=None, ext=False, trailers=False, ce=None, extra_
         lines.append(b"Connection: close")
         wire = body
     elif framing == "chunked":
-        lines.append(b"Transfer-Encoding: chunked")
+        lines.append(b"Transfer-Encoding: " + te_value.encode())
         sizes = chunks if chunks is not None else ([len(body)] if body else [])
         out = bytearray()
         p = 0
